@@ -155,6 +155,9 @@ type c20Event struct {
 	Crd   string   `json:"crd,omitempty"` // ok | missing | nostatus (composite only)
 	Touch int      `json:"touch,omitempty"`
 	Abs   string   `json:"abs"` // abstract letter: V I N D E C K
+	// Blocked: the event is issued while a sync of the name's running instance is
+	// held inside its sync hook call (ignored when nothing with a usable sync hook runs)
+	Blocked bool `json:"blocked,omitempty"`
 }
 
 type c20Case struct {
@@ -332,6 +335,9 @@ func c20Answer(rawURL string, hdr http.Header, req map[string]interface{}) (int,
 	run.mu.Lock()
 	run.calls[fmt.Sprintf("%s/%d/%s", short, id, kind)]++
 	run.mu.Unlock()
+	if kind == "sync" {
+		run.waitSyncGate(fmt.Sprintf("%s/%d", short, id)) // the call is counted when it arrives
+	}
 	if atomic.AddInt64(&c20CallCount, 1)%256 == 0 {
 		hookTransport.ResetCalls() // nobody reads the transport's own record
 	}
@@ -350,15 +356,17 @@ func c20Answer(rawURL string, hdr http.Header, req map[string]interface{}) (int,
 // ---- one run of one case ----
 
 type c20Run struct {
-	slot    int
-	w       *c20World
-	host    *c20Host
-	mu      sync.Mutex
-	calls   map[string]int // "<short>/<id>/<kind>" -> hook calls since the last reset
-	entered map[string]int // "<short>/<id>" -> customize hook requests received (answered or still held at the gate)
-	workers int
-	gate    chan struct{}
-	pokes   int
+	slot     int
+	w        *c20World
+	host     *c20Host
+	mu       sync.Mutex
+	calls    map[string]int           // "<short>/<id>/<kind>" -> hook calls since the last reset
+	entered  map[string]int           // "<short>/<id>" -> customize hook requests received (answered or still held at the gate)
+	syncGate map[string]chan struct{} // "<short>/<id>" -> sync hook calls of that instance are held until the channel is closed
+	syncHeld map[string]int           // sync hook calls currently held
+	workers  int
+	gate     chan struct{}
+	pokes    int
 	// per name: last seen instance identity and its incarnation number
 	lastPtr  map[string]uintptr
 	incarn   map[string]int
@@ -404,6 +412,48 @@ func (r *c20Run) openGate() {
 	if g != nil {
 		close(g)
 	}
+}
+
+// waitSyncGate holds a sync hook call of instance key while its gate is closed.
+func (r *c20Run) waitSyncGate(key string) {
+	r.mu.Lock()
+	g := r.syncGate[key]
+	if g != nil {
+		r.syncHeld[key]++
+	}
+	r.mu.Unlock()
+	if g == nil {
+		return
+	}
+	select {
+	case <-g:
+	case <-time.After(8 * time.Second):
+	}
+	r.mu.Lock()
+	r.syncHeld[key]--
+	r.mu.Unlock()
+}
+
+func (r *c20Run) closeSyncGate(key string) {
+	r.mu.Lock()
+	r.syncGate[key] = make(chan struct{})
+	r.mu.Unlock()
+}
+
+func (r *c20Run) openSyncGate(key string) {
+	r.mu.Lock()
+	g := r.syncGate[key]
+	delete(r.syncGate, key)
+	r.mu.Unlock()
+	if g != nil {
+		close(g)
+	}
+}
+
+func (r *c20Run) syncHeldOf(key string) int {
+	r.mu.Lock()
+	defer r.mu.Unlock()
+	return r.syncHeld[key]
 }
 
 func (r *c20Run) enteredOf(key string) int {
@@ -519,6 +569,8 @@ type c20Obs struct {
 	Refs     map[string]int
 	Active   map[string][2]int // "<short>/<id>" -> (hook calls, api writes)
 	WPanics  int
+	// Reconcile returned while a sync of the name's instance was still held in its hook call
+	InFlightReturn bool
 }
 
 type c20StepRec struct {
@@ -590,7 +642,7 @@ func (r *c20Run) activity(all bool) map[string][2]int {
 // runCase drives one history and returns what was observed.
 func c20RunCase(slot int, c *c20Case) (recs []c20StepRec) {
 	c20Install()
-	run := &c20Run{slot: slot, calls: map[string]int{}, entered: map[string]int{}, workers: c.Workers, lastPtr: map[string]uintptr{}, incarn: map[string]int{}}
+	run := &c20Run{slot: slot, calls: map[string]int{}, entered: map[string]int{}, syncGate: map[string]chan struct{}{}, syncHeld: map[string]int{}, workers: c.Workers, lastPtr: map[string]uintptr{}, incarn: map[string]int{}}
 	run.w = c20NewWorld()
 	workers := 1
 	if c.Workers >= 2 {
@@ -608,6 +660,25 @@ func c20RunCase(slot int, c *c20Case) (recs []c20StepRec) {
 	run.seedCluster()
 	for _, ev := range c.Events {
 		real := c20RealName(ev.Name, slot)
+		// A sync in flight: hold the running instance's next sync inside its hook call.
+		heldKey := ""
+		if ev.Blocked {
+			if info, ok := run.host.instances()[real]; ok {
+				if sp := c20SpecOf(c, ev.Name, info.specID); sp != nil && sp.Sync.usable() && c20ParentPresent(sp) {
+					heldKey = fmt.Sprintf("%s/%d", ev.Name, info.specID)
+					run.closeSyncGate(heldKey)
+					run.poke()
+					for t0 := time.Now(); run.syncHeldOf(heldKey) == 0; {
+						if time.Since(t0) > 3*time.Second {
+							run.openSyncGate(heldKey) // no sync came: the event runs unblocked
+							heldKey = ""
+							break
+						}
+						time.Sleep(200 * time.Microsecond)
+					}
+				}
+			}
+		}
 		switch ev.Op {
 		case "apply":
 			run.host.setFail(real, false)
@@ -623,7 +694,9 @@ func c20RunCase(slot int, c *c20Case) (recs []c20StepRec) {
 		// a freshly started instance cannot ask for related resources before the gate opens
 		run.closeGate()
 		obs := c20Obs{}
-		func() {
+		done := make(chan struct{})
+		go func() {
+			defer close(done)
 			defer func() {
 				if p := recover(); p != nil {
 					obs.Outcome = "panic"
@@ -636,6 +709,34 @@ func c20RunCase(slot int, c *c20Case) (recs []c20StepRec) {
 				obs.Outcome = "ok"
 			}
 		}()
+		if heldKey == "" {
+			<-done
+		} else {
+			// Reconcile runs while the sync is held.  If it stops the instance it must
+			// wait for that sync: it may not return before the hook call is released.
+			select {
+			case <-done:
+				obs.InFlightReturn = true
+				// whatever the held worker does from now on happens after the stop
+				run.resetCalls()
+				run.w.srv.ResetLog()
+				run.openSyncGate(heldKey)
+				// let the released sync finish (its status write is what would show)
+				for t0 := time.Now(); time.Since(t0) < 300*time.Millisecond; {
+					if run.activity(false)[heldKey][1] > 0 {
+						break
+					}
+					time.Sleep(time.Millisecond)
+				}
+			case <-time.After(200 * time.Millisecond):
+				run.openSyncGate(heldKey)
+				<-done
+			}
+		}
+		stale := map[string][2]int{}
+		if obs.InFlightReturn {
+			stale = run.activity(true)
+		}
 		obs.Insts = run.instsObs()
 		obs.Refs = c20RefCounts(run.host.factory())
 		// now let the hosted workers run and watch what they do
@@ -713,6 +814,13 @@ func c20RunCase(slot int, c *c20Case) (recs []c20StepRec) {
 		final := obs
 		final.Refs = c20RefCounts(run.host.factory())
 		final.Active = run.activity(true)
+		for k, v := range stale {
+			// seen between the early return and the window's reset below
+			e := final.Active[k]
+			e[0] += v[0]
+			e[1] += v[1]
+			final.Active[k] = e
+		}
 		final.WPanics = int(atomic.LoadInt64(&c20WorkerPanics) - wp0)
 		if final.WPanics > 0 {
 			run.sawPanic = true // the history's verdict is settled; do not wait for the worker's next death
@@ -860,7 +968,7 @@ func c20CoqObs(o c20Obs) string {
 		id, _ := strconv.Atoi(parts[1])
 		act = append(act, fmt.Sprintf("(%s, (%s, (%s, %s)))", vh.MustCoqString(parts[0]), vh.CoqZ(int64(id)), vh.CoqZ(int64(o.Active[k][0])), vh.CoqZ(int64(o.Active[k][1]))))
 	}
-	return fmt.Sprintf("(mkObs %s [%s] [%s] [%s] %s)", out, strings.Join(insts, "; "), strings.Join(refs, "; "), strings.Join(act, "; "), vh.CoqZ(int64(o.WPanics)))
+	return fmt.Sprintf("(mkObs %s [%s] [%s] [%s] %s %s)", out, strings.Join(insts, "; "), strings.Join(refs, "; "), strings.Join(act, "; "), vh.CoqZ(int64(o.WPanics)), vh.CoqBool(o.InFlightReturn))
 }
 
 func c20CoqCase(c *c20Case, recs []c20StepRec) string {
@@ -1105,6 +1213,11 @@ func (g *c20Gen) concretise(flavor, family string, letters []string, names []str
 		if l == "C" || l == "K" {
 			ev.Crd = c20BadCrds[g.rng.Intn(len(c20BadCrds))]
 		}
+		// a quarter of the events that find an object of the name are issued while a
+		// sync of its instance is in flight
+		if cur[n] != nil && g.rng.Chance(1, 4) {
+			ev.Blocked = true
+		}
 		if ev.Spec != nil {
 			cur[n] = ev.Spec
 		}
@@ -1263,6 +1376,35 @@ func c20Corpus(flavor string, rng *vh.Rng) []*c20Case {
 		c.Events[1].Spec = c.Events[0].Spec
 	})
 	add("corpus-concurrent-related", []string{"V", "V", "D", "V", "D", "D"}, []string{"a", "b", "a", "a", "b", "a"}, conc)
+	// delete / spec change / unstartable spec / no-op while a sync of the instance is held in its hook call
+	inflight := func(blocked ...int) func(c *c20Case, g *c20Gen) {
+		return func(c *c20Case, g *c20Gen) {
+			for i := range c.Events {
+				c.Events[i].Blocked = false
+				if s := c.Events[i].Spec; s != nil && c.Events[i].Abs == "V" {
+					s.Kind, s.NoHooks = "valid", false
+					s.Parents = []c20Rule{c20Things}
+					s.Children = []c20Rule{c20Pods}
+					s.Sync = &c20HookCfg{URL: true}
+					s.Finalize, s.Customize = nil, nil
+				}
+			}
+			for _, i := range blocked {
+				c.Events[i].Blocked = true
+			}
+		}
+	}
+	add("corpus-stop-in-flight", []string{"V", "D"}, a(2), inflight(1))
+	add("corpus-stop-in-flight", []string{"V", "V", "D"}, a(3), inflight(1, 2))
+	add("corpus-stop-in-flight", []string{"V", "I", "V", "N", "D"}, a(5), inflight(1, 3, 4))
+	add("corpus-stop-in-flight", []string{"V", "V", "D", "V", "D"}, []string{"a", "b", "a", "b", "b"}, inflight(2, 3, 4))
+	add("corpus-stop-in-flight", []string{"V", "E", "D"}, a(3), func(c *c20Case, g *c20Gen) {
+		inflight(1, 2)(c, g)
+		c.Workers = 2
+	})
+	if flavor == "Composite" {
+		add("corpus-stop-in-flight", []string{"V", "C", "V", "G"}, a(4), inflight(1, 3))
+	}
 	add("corpus-dup-rule", []string{"V", "D"}, a(2), func(c *c20Case, g *c20Gen) {
 		s := c.Events[0].Spec
 		s.Kind, s.Children, s.Customize = "dup-rule", []c20Rule{c20Pods, c20Pods}, nil
@@ -1449,6 +1591,11 @@ func c20Main(t *testing.T) {
 			t.Fatal(err)
 		}
 		w.Count("family-" + strings.SplitN(c.Family, "-", 3)[0])
+		for _, r := range recs {
+			if r.Event.Blocked {
+				w.Count("event-with-sync-in-flight-requested")
+			}
+		}
 		if c.Workers >= 2 {
 			w.Count("two-workers")
 			for _, r := range recs {
